@@ -45,6 +45,9 @@ func parseData(ps []*Packet, prs PacketsParser, pm *programMap) (ds []*DemuxerDa
 		} else if skip {
 			return
 		}
+
+		// The default process doesn't return what the custom parser has returned, whatever the kind of payload
+		ds = nil
 	}
 
 	// Get payload length
